@@ -300,6 +300,49 @@ def check_accessors(chk, prog, sim):
         chk.discharge(key)
 
 
+def check_command_eq(chk, prog, sim, tag=""):
+    """A command's kind is part of its identity: commands of different kinds are never equal (CommandPID decides 'a new
+    command arrived' with !=), commands of one kind compare their values - in every configuration; an equality routed through
+    a unit comparison loses the kind when units are compiled out."""
+    key = "A:command-eq" + tag
+    chk.obligation(key, "Command equality distinguishes kinds" + tag)
+    eqs = [f for f in prog.find_fns(name="eq", self_name="Command") if (f.get("impl_trait") or "").endswith("PartialEq")]
+    if len(eqs) != 1:
+        raise AnchorMissing("PartialEq::eq for Command")
+    eq = eqs[0]
+    chk.analysed(eq["pretty"] + tag)
+    cty = adt_ty(prog, "Command")
+    ok = True
+    for k1 in KINDS:
+        for k2 in KINDS:
+            st = S.State()
+            o1 = st.new_obj("a", sim.mk_enum(cty, k1, [Sym("x", prim("f32"))]))
+            o2 = st.new_obj("b", sim.mk_enum(cty, k2, [Sym("y", prim("f32"))]))
+            ls = sim.run(eq, sim.identity_gargs(eq), [Ref(Ptr(o1), False), Ref(Ptr(o2), False)], st)
+            chk.evaluated(len(ls), nontrivial=(key, k1, k2))
+            outs = []
+            for l in ls:
+                if l.kind != "return":
+                    outs.append((l.kind, l.info.get("msg")))
+                else:
+                    outs.append(sim.final_value(l.state, l.value))
+            if any(isinstance(o, tuple) for o in outs):
+                chk.violation("analysis-incomplete" if any(o[0] == "unsupported" for o in outs if isinstance(o, tuple)) else "C14.A", "%s:%s:%s" % (key, k1, k2),
+                              "Command::eq(%s(x), %s(y)) does not simply return: %s" % (k1, k2, outs), fn=eq["pretty"], file=loc(eq["span"]))
+                ok = False
+                continue
+            if k1 != k2:
+                good = all(isinstance(o, Const) and o.val in (False, 0) for o in outs)
+            else:
+                good = not all(isinstance(o, Const) for o in outs) or {bool(o.val) for o in outs} == {True, False}
+            if not good:
+                chk.violation("C14.A", "%s:%s:%s" % (key, k1, k2), "Command::eq(%s(x), %s(y)) = %s: %s" % (k1, k2, outs,
+                              "commands of different kinds can compare equal" if k1 != k2 else "does not depend on the values"), fn=eq["pretty"], file=loc(eq["span"]))
+                ok = False
+    if ok:
+        chk.discharge(key)
+
+
 def check_arith(chk, prog, sim, tag=""):
     names = state_fields(prog)
     n = 0
@@ -400,6 +443,7 @@ def run(chk):
     # adding / subtracting commands of different kinds panics in every configuration (a kind check delegated to the unit check
     # vanishes with the units)
     before = len(chk.violations)
+    check_command_eq(chk, p4, S.Sim(p4), "@K4")
     check_arith(chk, p4, S.Sim(p4), "@K4")
     for v in chk.violations[before:]:
         v["key"] += "@K4"
@@ -422,6 +466,7 @@ def run(chk):
         v["what"] = "[release profile with dim_check_release] " + v["what"]
     check_command_from_state(chk, prog, sim)
     check_accessors(chk, prog, sim)
+    check_command_eq(chk, prog, sim)
     import rules.C01 as C01
     import report as _rp
     subc = _rp.Check("C14", chk.tier)
